@@ -743,7 +743,21 @@ class Interp:
             elif n in kwargs:
                 obj.fields[n] = kwargs[n]
             elif dflt is not None:
-                obj.fields[n] = self.eval(dflt, Frame(mod, None, {}))
+                dfr_ = Frame(mod, None, {})
+                fcall = dflt if isinstance(dflt, ast.Call) and (
+                    (isinstance(dflt.func, ast.Name) and dflt.func.id == "field") or
+                    (isinstance(dflt.func, ast.Attribute) and dflt.func.attr == "field")) else None
+                if fcall is not None:
+                    # dataclasses.field(default=..., default_factory=...): the factory is called for every new object
+                    kw = {k.arg: k.value for k in fcall.keywords}
+                    if "default_factory" in kw:
+                        obj.fields[n] = self.call_value(self.eval(kw["default_factory"], dfr_), [], {}, node, fr)
+                    elif "default" in kw:
+                        obj.fields[n] = self.eval(kw["default"], dfr_)
+                    else:
+                        self.raise_exc("TypeError", [Str.lit(f"missing field {n} for {cls.name}")], node, fr)
+                else:
+                    obj.fields[n] = self.eval(dflt, dfr_)
             else:
                 self.raise_exc("TypeError", [Str.lit(f"missing field {n} for {cls.name}")], node, fr)
         for k in kwargs:
@@ -855,6 +869,10 @@ class Interp:
                     break
                 if other in wanted:
                     scope[other] = self.class_attr(c, other, oexpr)
+            for mname, fi in c.methods.items():
+                # ... and the functions defined before it (plain functions at that point: called with the instance as argument)
+                if mname in wanted and mname not in scope and fi.node.lineno < getattr(expr, "lineno", 0):
+                    scope[mname] = FuncV(fi, None)
             self.run.const_cache[key] = self.eval(expr, Frame(c.module, None, scope))
         return self.run.const_cache[key]
 
